@@ -329,6 +329,13 @@ retry:
 			}
 
 			if buf.preds[i].dcasNext(i, next, x, false, false) {
+				// The node may have been marked deleted after the check above.
+				// The deleter's unlink pass ran before this link existed, so
+				// nobody else would ever remove it: unlink it here.
+				if _, deleted := x.getNext(i); deleted {
+					s.findPath(itm, insCmp, buf, sts)
+					goto finished
+				}
 				break fixThisLevel
 			}
 
